@@ -1,13 +1,516 @@
-"""Native replay of a counter-model on the real code (run under /venv/bin/python).  Prints one JSON line:
-{"reproduced": true|false|null, "detail": ...}.  Builders live in contracts/replay_builders.py."""
+"""Native replay of a counter-model on the real code (run under /venv/bin/python; no z3 here).
+
+Generic harness: the replay file carries the counter-model (values of the symbolic inputs, Obj values read through
+kind_of/unbox*), the contract's parameter types, the entity/record tables and the specification functions.  The harness
+  1. rebuilds real Python inputs (real instances of the repository's classes, created without running __init__ and
+     populated field by field; real dicts/lists/deques; opaque placeholders for objects the model leaves abstract),
+  2. checks the contract's `requires` natively (a model that does not satisfy them natively is not a witness),
+  3. runs the real function, and
+  4. evaluates the failed clause *text* natively (same text the verifier proved or refuted).
+Prints one JSON line {"reproduced": true|false|null, "detail": ...}.  null = the harness could not decide (abstract values,
+clause kind that is not a function-exit clause, unsupported type); that is reported as no-failing-input-found.
+Property-specific native meanings of uninterpreted functions live in contracts/replay_builders.py (NATIVE).
+"""
+import ast
+import collections
+import copy
+import importlib
 import json
 import os
+import re
 import sys
 import traceback
+import weakref
 
 HERE = os.path.dirname(os.path.dirname(os.path.abspath(__file__)))
 sys.path.insert(0, HERE)
 sys.path.insert(0, os.environ.get("PYVC_REPO", "/repo"))
+
+
+class Opaque:
+    """An object the counter-model leaves abstract (identity only)."""
+
+    def __init__(self, name, classes=()):
+        self.name, self.classes = name, tuple(classes)
+
+    def to_dict(self):
+        """x.to_dict() of an abstract object: an abstract dump that identifies the object (dump_of in the contracts)."""
+        if "_dump" not in self.__dict__:
+            self._dump = Opaque("dump_of(%s)" % self.name)
+        return self._dump
+
+    def __repr__(self):
+        return "<%s>" % self.name
+
+    def __deepcopy__(self, memo):
+        return self
+
+    def __copy__(self):
+        return self
+
+
+class Undecidable(Exception):
+    pass
+
+
+# ----------------------------------------------------------------------------- type descriptors (repr of pyvc.ty types)
+def split_top(s, sep=","):
+    out, depth, cur = [], 0, ""
+    for ch in s:
+        if ch in "<[":
+            depth += 1
+        elif ch in ">]":
+            depth -= 1
+        if ch == sep and depth == 0:
+            out.append(cur)
+            cur = ""
+        else:
+            cur += ch
+    if cur:
+        out.append(cur)
+    return [x.strip() for x in out]
+
+
+def parse_ty(s):
+    s = s.strip()
+    if s in ("TInt", "TBool", "TStr", "TReal", "TNone"):
+        return (s[1:],)
+    if s in ("Int", "Bool", "Str", "Real", "None", "Obj"):
+        return (s,)
+    m = re.match(r"^(\w+)<(.*)>(w?)$", s)
+    if m:
+        head, inner, weak = m.groups()
+        if head in ("Obj", "Ent", "Rec"):
+            return (head, inner)
+        if head == "Dict":
+            k, v = split_top(inner)
+            return ("Dict", parse_ty(k), parse_ty(v), bool(weak))
+        return (head, parse_ty(inner))
+    if s.startswith("Tuple["):
+        return ("Tuple", [parse_ty(x) for x in split_top(s[6:-1])])
+    raise Undecidable("type descriptor %r" % s)
+
+
+class Builder:
+    def __init__(self, rp):
+        self.rp = rp
+        self.ctx = rp["replay_ctx"]
+        self.model = rp["counter_model"] or {}
+        self.objs = {}
+        self.pool = {"str": set(), "int": set(range(-1, 4))}
+        self.notes = []
+
+    def repo_class(self, ent):
+        mod, q = self.ctx["entities"][ent]["where"]
+        m = importlib.import_module("twosigma.memento." + mod)
+        o = m
+        for part in q.split("."):
+            o = getattr(o, part)
+        return o
+
+    def get(self, name):
+        if name not in self.model:
+            raise Undecidable("input %s is not in the counter-model" % name)
+        return self.model[name]
+
+    def obj(self, v):
+        if v is None:
+            return None
+        if isinstance(v, dict) and "$obj" in v:
+            k = v.get("kind")
+            if k in (1, 2, 3, 4) and "value" in v:
+                val = v["value"]
+                if k == 1:
+                    self.pool["str"].add(val)
+                return {1: str, 2: int, 3: bool, 4: float}[k](val)
+            nm = v["$obj"]
+            if nm not in self.objs:
+                self.objs[nm] = Opaque(nm, v.get("classes", ()))
+                for a, av in (v.get("attrs") or {}).items():
+                    try:
+                        setattr(self.objs[nm], a, self.obj(av))
+                    except Exception:
+                        pass
+            return self.objs[nm]
+        if isinstance(v, dict) and "$rec" in v:
+            return self.rec(v)
+        if isinstance(v, dict) and "$term" in v:
+            nm = v["$term"]
+            if nm not in self.objs:
+                self.objs[nm] = Opaque(nm)
+            return self.objs[nm]
+        if isinstance(v, str):
+            self.pool["str"].add(v)
+        return v
+
+    def rec(self, v):
+        name = v["$rec"][3:] if v["$rec"].startswith("mk_") else v["$rec"]
+        if name.startswith("Opt_") or v["$rec"] in ("none", "some"):
+            return None if v["$rec"] == "none" else self.obj(v["fields"][0])
+        fields = self.ctx["records"].get(name)
+        vals = [self.obj(x) for x in v["fields"]]
+        cls = self.find_record_class(name)
+        if cls is not None and fields is not None:
+            try:
+                return cls(**dict(zip([f for f, _ in fields], vals)))
+            except Exception:
+                pass
+        return collections.namedtuple(name, [f for f, _ in fields] if fields else ["f%d" % i for i in range(len(vals))])(*vals)
+
+    def find_record_class(self, name):
+        for mod in ("storage_base", "types", "context", "runner", "reference", "metadata"):
+            try:
+                m = importlib.import_module("twosigma.memento." + mod)
+            except Exception:
+                continue
+            if hasattr(m, name):
+                return getattr(m, name)
+        return None
+
+    def scalar(self, v, ty):
+        if ty[0] == "Str":
+            self.pool["str"].add(v)
+        return v
+
+    def build(self, ty, name):
+        t = ty[0]
+        if t in ("Int", "Bool", "Str"):
+            return self.scalar(self.get(name), ty)
+        if t == "Real":
+            return float(self.get(name))
+        if t == "None":
+            return None
+        if t == "Obj":
+            return self.obj(self.get(name))
+        if t == "Opt":
+            inner = ty[1]
+            if inner[0] == "Obj":
+                return self.build(inner, name)
+            if inner[0] == "Ent":
+                if self.model.get(name + "?none", False):
+                    return None
+                return self.build(inner, name)
+            if self.get(name + "?none"):
+                return None
+            return self.build(inner, name)
+        if t == "Rec":
+            return self.obj(self.get(name))
+        if t == "Tuple":
+            return tuple(self.build(x, "%s.%d" % (name, i)) for i, x in enumerate(ty[1]))
+        if t == "Dict":
+            has = dict(map(tuple_key, self.get(name + "#has")["$map"]))
+            val = dict(map(tuple_key, self.get(name + "#val")["$map"]))
+            d = {}
+            for k, present in has.items():
+                if present:
+                    kk = self.obj(k) if not isinstance(k, (str, int, bool)) else k
+                    if isinstance(kk, str):
+                        self.pool["str"].add(kk)
+                    d[kk] = self.obj(val.get(k))
+            for k in has:
+                if isinstance(k, str):
+                    self.pool["str"].add(k)
+            cnt = self.model.get(name + "#count")
+            if cnt is not None and cnt != len(d):
+                self.notes.append("dict %s: the model's size %s differs from its %d named entries; the named entries are used" % (name, cnt, len(d)))
+            if ty[3]:
+                w = weakref.WeakValueDictionary()
+                self.keepalive = getattr(self, "keepalive", [])
+                for k, v in d.items():
+                    try:
+                        w[k] = v
+                        self.keepalive.append(v)
+                    except TypeError:
+                        raise Undecidable("weak dict entry is not weak-referenceable")
+                return w
+            return d
+        if t == "List":
+            n = self.get(name + "#len")
+            arr = dict(map(tuple_key, self.get(name + "#arr")["$map"]))
+            if n > 64:
+                raise Undecidable("list of %d elements" % n)
+            out = []
+            for i in range(n):
+                if i in arr:
+                    out.append(self.obj(arr[i]) if ty[1][0] in ("Obj", "Rec") else arr[i])
+                else:
+                    out.append(Opaque("%s[%d]" % (name, i)) if ty[1][0] == "Obj" else {"Int": 0, "Bool": False, "Str": ""}.get(ty[1][0]))
+            self.pool["int"].update(range(n + 2))
+            return out
+        if t == "Set":
+            mem = dict(map(tuple_key, self.get(name + "#mem")["$map"]))
+            return {self.obj(k) if not isinstance(k, (str, int, bool)) else k for k, v in mem.items() if v}
+        if t == "OrdSet":
+            mem = dict(map(tuple_key, self.get(name + "#mem")["$map"]))
+            stamp = dict(map(tuple_key, self.get(name + "#stamp")["$map"]))
+            keys = [k for k, v in mem.items() if v]
+            for k in mem:
+                if isinstance(k, str):
+                    self.pool["str"].add(k)
+            cnt = self.model.get(name + "#count")
+            if cnt is not None and cnt != len(keys):
+                self.notes.append("recency order %s: the model's size %s differs from its %d named members; the named members are used" % (name, cnt, len(keys)))
+            keys.sort(key=lambda k: stamp.get(k, 0))
+            return collections.deque(keys)
+        if t == "Ent":
+            cls = self.repo_class(ty[1])
+            o = object.__new__(cls)
+            for f, fty in self.ctx["entities"][ty[1]]["fields"].items():
+                try:
+                    setattr(o, f, self.build(parse_ty(fty), "%s.%s" % (name, f)))
+                except AttributeError:
+                    pass
+            return o
+        raise Undecidable("cannot build a value of type %r" % (ty,))
+
+
+def tuple_key(kv):
+    k, v = kv
+    if isinstance(k, (dict, list)):
+        k = json.dumps(k, sort_keys=True)
+    return (k, v)
+
+
+# ----------------------------------------------------------------------------- native evaluation of clause texts
+class OldRewriter(ast.NodeTransformer):
+    """old(e) -> e evaluated on the deep-copied pre-state: parameter names inside old() are redirected to their snapshots."""
+
+    def __init__(self, params):
+        self.params, self.depth = set(params), 0
+
+    def visit_Call(self, n):
+        if isinstance(n.func, ast.Name) and n.func.id == "old":
+            self.depth += 1
+            try:
+                return self.visit(n.args[0])
+            finally:
+                self.depth -= 1
+        n = self.generic_visit(n)
+        if isinstance(n.func, ast.Name) and n.func.id == "implies" and len(n.args) == 2:   # lazy, as in the logic
+            return ast.copy_location(ast.BoolOp(op=ast.Or(), values=[ast.UnaryOp(op=ast.Not(), operand=n.args[0]), n.args[1]]), n)
+        if isinstance(n.func, ast.Name) and n.func.id == "ite" and len(n.args) == 3:
+            return ast.copy_location(ast.IfExp(test=n.args[0], body=n.args[1], orelse=n.args[2]), n)
+        return n
+
+    def visit_Name(self, n):
+        if self.depth and n.id in self.params:
+            return ast.copy_location(ast.Name(id="__old_" + n.id, ctx=n.ctx), n)
+        return n
+
+
+def strip_tag(text):
+    t = text.lstrip()
+    if t.startswith("["):
+        return t[t.index("]") + 1:].strip()
+    return t.strip()
+
+
+class Native:
+    def __init__(self, builder, natives):
+        self.b = builder
+        self.ns = {}
+        self.params = []
+        ns = self.ns
+        ns.update({"implies": lambda a, b: (not a) or bool(b), "iff": lambda a, b: bool(a) == bool(b), "ite": lambda c, a, b: a if c else b,
+                   "same": self.same, "truthy": bool, "isnone": lambda x: x is None, "forall": self.forall, "exists": self.exists,
+                   "first_index": self.first_index, "stamp": self.stamp, "dsum": self.dsum, "dnonneg": self.dnonneg, "pos": lambda l, x: list(l).index(x) if x in l else -1,
+                   "str": str, "int": int, "bool": bool, "float": float, "obj": object, "len": len, "isinstance": self.isinst, "True": True, "False": False, "None": None})
+        ns.update(natives)
+        for name, (ps, body) in builder.ctx["specs"].items():
+            ns[name] = self.make_spec(name, ps, body)
+
+    def same(self, a, b):
+        if a is b:
+            return True
+        if isinstance(a, Opaque) or isinstance(b, Opaque):
+            return False
+        try:
+            return type(a) == type(b) and a == b
+        except Exception:
+            return False
+
+    def isinst(self, x, cls):
+        if isinstance(cls, tuple):
+            return any(self.isinst(x, c) for c in cls)
+        if isinstance(x, Opaque):
+            nm = getattr(cls, "__name__", str(cls))
+            return nm in x.classes
+        return isinstance(x, cls)
+
+    def pool_for(self, t):
+        if t is str:
+            return sorted(self.b.pool["str"] | {"", "zz~"})
+        if t is int:
+            return sorted(self.b.pool["int"])
+        if t is bool:
+            return [False, True]
+        return list(self.b.objs.values()) + [None]
+
+    def forall(self, *args):
+        *tys, lam = args
+        import itertools
+        return all(lam(*xs) for xs in itertools.product(*[self.pool_for(t) for t in tys]))
+
+    def exists(self, *args):
+        *tys, lam = args
+        import itertools
+        return any(lam(*xs) for xs in itertools.product(*[self.pool_for(t) for t in tys]))
+
+    def first_index(self, lst, lam):
+        for i, x in enumerate(lst):
+            if lam(x):
+                return i
+        return len(lst)
+
+    def stamp(self, dq, k):
+        return list(dq).index(k) if k in dq else -1
+
+    def dsum(self, d, field):
+        return sum(getattr(v, field) for v in d.values())
+
+    def dnonneg(self, d, field):
+        return all(getattr(v, field) >= 0 for v in d.values())
+
+    def make_spec(self, name, ps, body):
+        node = self.compile(body, extra=ps)
+        ns = self.ns
+
+        def f(*a):
+            g = dict(ns)
+            g.update(self.cur_env)
+            g.update(zip(ps, a))
+            return eval(node, g)
+        return f
+
+    def compile(self, text, extra=()):
+        tree = ast.parse(strip_tag(text), mode="eval")
+        tree = OldRewriter(self.params).visit(tree)
+        ast.fix_missing_locations(tree)
+        return compile(tree, "<clause>", "eval")
+
+    cur_env = {}
+
+    def eval(self, text, env):
+        self.cur_env = dict(env)
+        g = dict(self.ns)
+        g.update(env)
+        return eval(self.compile(text), g)
+
+
+def show(v, depth=0):
+    """Readable rendering of rebuilt inputs (repository objects are shown with their fields)."""
+    if depth > 5:
+        return "..."
+    if isinstance(v, (str, int, float, bool, type(None), Opaque)):
+        return repr(v)
+    if isinstance(v, dict) or isinstance(v, weakref.WeakValueDictionary):
+        return "{" + ", ".join("%s: %s" % (show(k, depth + 1), show(x, depth + 1)) for k, x in list(v.items())[:12]) + "}"
+    if isinstance(v, (list, tuple, collections.deque, set)):
+        return type(v).__name__ + "[" + ", ".join(show(x, depth + 1) for x in list(v)[:12]) + "]"
+    if hasattr(v, "_fields"):
+        return type(v).__name__ + "(" + ", ".join("%s=%s" % (f, show(getattr(v, f), depth + 1)) for f in v._fields) + ")"
+    if hasattr(v, "__dict__") and type(v).__module__.startswith("twosigma"):
+        return type(v).__name__ + "(" + ", ".join("%s=%s" % (k, show(x, depth + 1)) for k, x in list(vars(v).items())[:12]) + ")"
+    return repr(v)
+
+
+def run(rp):
+    if not rp.get("replay_ctx") or rp.get("counter_model") is None:
+        return {"reproduced": None, "detail": "no counter-model / replay context in the replay file (solver gave none)"}
+    kind = rp.get("kind")
+    if kind not in ("post", "post-exc", "exception-freedom", "type-safety", "assert", "safety"):
+        return {"reproduced": None, "detail": "obligation kind %r is not a function-exit clause: the model describes an intermediate (loop-cut or call-site) state, not an input" % kind}
+    ctx = rp["replay_ctx"]
+    b = Builder(rp)
+    natives = {}
+    try:
+        from contracts import replay_builders as RB
+        natives = RB.natives(rp, b)
+    except Undecidable:
+        raise
+    except Exception as e:
+        b.notes.append("native table: %s" % e)
+    try:
+        args = {}
+        for p in ctx["params"]:
+            if ctx["name"] == "__init__" and p == ctx["params"][0] and ctx["types"].get(p, "").startswith("Ent<"):
+                args[p] = object.__new__(b.repo_class(ctx["types"][p][4:-1]))   # a constructor starts from a bare instance
+            elif p in ctx["types"]:
+                args[p] = b.build(parse_ty(ctx["types"][p]), p)
+            elif ctx["kind"] == "class" and p == ctx["params"][0]:
+                continue
+            else:
+                raise Undecidable("parameter %s has no declared type" % p)
+    except Undecidable as e:
+        return {"reproduced": None, "detail": "inputs not concretisable: %s" % e}
+    nat = Native(b, natives)
+    nat.params = list(args)
+    mod = importlib.import_module("twosigma.memento." + ctx["module"])
+    for name in dir(mod):
+        nat.ns.setdefault(name, getattr(mod, name))
+    try:
+        import pandas as pd
+        nat.ns.setdefault("pd", pd)
+    except Exception:
+        pass
+    # preconditions must hold natively
+    for r in ctx.get("requires", []):
+        try:
+            if not nat.eval(r, dict(args)):
+                return {"reproduced": None, "detail": "the concretised model does not satisfy the precondition natively: %s" % strip_tag(r), "inputs": show(args)[:1500]}
+        except Exception as e:
+            return {"reproduced": None, "detail": "precondition not evaluable natively (%s): %s" % (strip_tag(r), e)}
+    pre_inputs = show(args)[:2000]
+    old = {}
+    for p, v in args.items():
+        try:
+            old["__old_" + p] = copy.deepcopy(v)
+        except Exception:
+            old["__old_" + p] = v
+    # call the real function
+    target = mod
+    if ctx["cls"]:
+        for part in ctx["cls"].split("."):
+            target = getattr(target, part)
+    fn = getattr(target, ctx["name"]) if ctx["cls"] else getattr(mod, ctx["name"])
+    call_args = [args[p] for p in ctx["params"] if p in args]
+    hooks = getattr(RB, "PATCHES", {}).get(rp["function"]) if "RB" in dir() else None
+    raised, result = None, None
+    try:
+        if hooks:
+            with hooks(rp, b, args):
+                result = fn(*call_args)
+        else:
+            result = fn(*call_args)
+    except BaseException as e:  # the real code's exception is an observation
+        raised = e
+    env = dict(args)
+    env.update(old)
+    env["result"] = env["ret"] = result
+    inputs = pre_inputs
+    if kind == "exception-freedom":
+        want = (rp.get("obligation") or "").split("no-undeclared-exception/")[-1].split("/")[0]
+        if raised is not None and type(raised).__name__ == want:
+            return {"reproduced": True, "detail": "the real function raises %s: %s" % (type(raised).__name__, raised), "inputs": inputs}
+        return {"reproduced": False, "detail": "the real function did not raise %s (raised=%r)" % (want, raised), "inputs": inputs}
+    if kind in ("type-safety", "assert", "safety"):
+        if raised is not None:
+            return {"reproduced": True, "detail": "the real function raises %s: %s" % (type(raised).__name__, raised), "inputs": inputs}
+        return {"reproduced": None, "detail": "safety obligation; the real function returned normally on the concretised input", "inputs": inputs}
+    if kind == "post" and raised is not None:
+        return {"reproduced": None, "detail": "the model is on a normal-exit path but the real function raised %r" % raised, "inputs": inputs}
+    if kind == "post-exc":
+        if raised is None:
+            return {"reproduced": None, "detail": "the model is on an exceptional path but the real function returned normally", "inputs": inputs}
+        env["exc"] = raised
+    try:
+        ok = nat.eval(rp["clause"], env)
+    except Undecidable as e:
+        return {"reproduced": None, "detail": "clause not evaluable natively: %s" % e, "inputs": inputs}
+    except Exception as e:
+        return {"reproduced": None, "detail": "clause not evaluable natively: %s: %s" % (type(e).__name__, e), "inputs": inputs}
+    return {"reproduced": (not ok), "detail": "clause evaluated natively on the real function's outcome: %s" % ("False -- violated" if not ok else "True -- holds on this input"),
+            "inputs": inputs, "observed": show(result)[:600] if raised is None else "raised %r" % raised, "notes": b.notes}
 
 
 def main():
@@ -18,13 +521,11 @@ def main():
         fn = B.BUILDERS.get(rp["function"])
         if rp.get("custom_replay"):
             fn = getattr(B, rp["custom_replay"])
-        if fn is None:
-            print(json.dumps({"reproduced": None, "detail": "no native builder for %s; the replay file carries the failed obligation and the solver output" % rp["function"]}))
-            return
-        res = fn(rp)
-        print(json.dumps(res))
+        res = fn(rp) if fn is not None else run(rp)
+        print(json.dumps(res, default=repr))
     except Exception:
         print(json.dumps({"reproduced": None, "detail": "replay harness raised: " + traceback.format_exc()[-1500:]}))
 
 
-main()
+if __name__ == "__main__":
+    main()
